@@ -5,7 +5,7 @@
 //   order r|c                               set_array_row_major_order(true|false)
 //   alloc <aid> <vid> <rank> d… def|row|col new Array (resize / resize_row_major / resize_column_major); view <vid> is the whole array
 //                                             -> "A <n_allocated> <rank> d… offset…"
-//   falloc <aid> <vid> 4|23|33              FixedArray<T,false,4> / <2,3> / <3,3>; view <vid> = fa(__[,__]) (an Array onto its data)
+//   falloc <aid> <vid> 4|23|33|234          FixedArray<T,false,4> / <2,3> / <3,3> / <2,3,4>; view <vid> = fa(__[,__]) (an Array onto its data)
 //   fill <aid> x… | fill <aid> seed <s>     raw fill of the whole allocation, padding included
 //   view <vid> <src vid> spec… [T | P<ijk>] slice: spec per dimension of src  : | n<k> | s<b>,<e>,<st>  ; then .T() / .permute
 //                                             -> "V <aid> <base offset> <rank> d… offset…"
@@ -104,6 +104,7 @@ template <class T> static int run() {
         if (kind == 4) { auto p = std::make_shared<FixedArray<T, false, 4> >(); a.fixed = p; a.data = p->data(); a.n = 4; v.rank = 1; v.a1 >>= (*p)(__); }
         else if (kind == 23) { auto p = std::make_shared<FixedArray<T, false, 2, 3> >(); a.fixed = p; a.data = p->data(); a.n = 6; v.rank = 2; v.a2 >>= (*p)(__, __); }
         else if (kind == 33) { auto p = std::make_shared<FixedArray<T, false, 3, 3> >(); a.fixed = p; a.data = p->data(); a.n = 9; v.rank = 2; v.a2 >>= (*p)(__, __); }
+        else if (kind == 234) { auto p = std::make_shared<FixedArray<T, false, 2, 3, 4> >(); a.fixed = p; a.data = p->data(); a.n = 24; v.rank = 3; v.a3 >>= (*p)(__, __, __); }
         else { W.views.erase(vid); std::cout << "bad-op\n"; continue; }
         W.allocs[aid] = a;
         std::cout << "A " << a.n << " " << view_line(W, v).substr(2) << "\n";
@@ -181,7 +182,7 @@ template <class T> static int run() {
         if (w.size() >= 2) {
           if ((op == "asg" || op == "asge" || op == "cadd" || op == "csub" || op == "cmul" || op == "cdiv" || op == "sca" || op == "whr" || op == "weo") && W.views.count(idof(w[1]))) r = W.views[idof(w[1])].rank;
           else if ((op == "iasg" || op == "icadd" || op == "icsub" || op == "icmul" || op == "isca") && W.iviews.count(idof(w[1]))) r = W.iviews[idof(w[1])].krank;
-          else if ((op == "fasg" || op == "fcadd" || op == "fcmul") && W.allocs.count(idof(w[1]))) r = W.allocs[idof(w[1])].fkind == 4 ? 1 : 2;
+          else if ((op == "fasg" || op == "fcadd" || op == "fcmul") && W.allocs.count(idof(w[1]))) r = W.allocs[idof(w[1])].fkind == 4 ? 1 : W.allocs[idof(w[1])].fkind == 234 ? 3 : 2;
           else if (op == "red" || op == "redd" || op == "redb" || op == "reddb" || op == "find" || op == "minloc" || op == "maxloc" || op == "dot") {
             Tok t; t.w = w; t.p = (op == "red" || op == "redb") ? 2 : (op == "redd" || op == "reddb") ? 3 : 1;
             Shape sh;
